@@ -16,6 +16,7 @@ EXPLANATION = (
     "bloom buffer is only off-loaded from an on-disk index. B7: every transition to OnDisk comes with a known bloom offset. B8: a "
     "transition back to InMemory re-initialises the filter (C04.T5). B9: the range merge can extend both bounds in one call. "
     "Decides these conservative-default / coverage structures, not the numeric agreement of the hash->bit mappings.")
+EXPLANATION += (" " + 'B11 at every construction of Bloom and every store into Bloom.inner the bit-vector length and bits_count have the same provenance (the on-disk probe and clear() use bits_count, add/contains use the vector length).')
 ASSUMPTIONS = []
 
 FR = 'filter::FilterResult'
@@ -515,6 +516,76 @@ def b10(ctx, rid):
             ctx.bad(rid, key, ors[0].where(), 'two bloom filters can be merged without their %s having been compared: a filter built with a different configuration is OR-ed in, the merged filter probes bits the other one never set and answers `absent` for its keys' % what)
 
 
+BLOOM = 'filter::bloom::Bloom'
+
+
+def _len_keys(f, operand):
+    return set(o.key() for o in core.origins(f, operand, stop_fields=True))
+
+
+def _bitvec_len_operand(f, operand):
+    """for a value that is (an Option of) a freshly built AtomicBitVec: the operand giving its length in bits, else None"""
+    for o in core.origins(f, operand):
+        if o.kind == 'call' and 'AtomicBitVec' in o.data.path:
+            if o.data.name == 'new' and o.data.args:
+                return o.data, o.data.args[0]
+            if o.data.name == 'from_raw_slice' and len(o.data.args) > 1:
+                return o.data, o.data.args[1]
+    return None, None
+
+
+def b11(ctx, rid):
+    """`bits_count` (the modulus of the on-disk probe and of clear()) and the length of the in-memory bit vector (the modulus of
+    add / contains) are one number: each constructor takes both from the same value, a later store into `inner` sizes the
+    vector from self.bits_count, and bits_count is never stored outside the constructors"""
+    prog = ctx.prog
+    n = 0
+    for (f, bb, o, how) in core.field_sources(prog, BLOOM, 'inner'):
+        root = prog.fns[f.id].root
+        if how == 'construct':
+            agg = None
+            for st in f.blocks[bb]['s']:
+                if st['k'] == 'a' and st['r']['k'] == 'agg' and st['r'].get('adt') == BLOOM:
+                    agg = st['r']
+            if agg is None:
+                continue
+            bc = agg['ops'][agg['fields'].index('bits_count')]
+            n += 1
+            key = 'len-eq-bits_count|construct|%s' % root
+            c, ln = _bitvec_len_operand(f, o)
+            if c is None:
+                # copy of an existing filter (Clone): both fields must come from the same source object
+                io = core.origins(f, o, stop_fields=True)
+                bo = core.origins(f, bc, stop_fields=True)
+                if all(x.kind in ('field', 'call') for x in io) and all(x.kind == 'field' and x.data[1] == 'bits_count' for x in bo) and bo:
+                    ctx.ok(rid, key, f.where(bb), 'copy: inner and bits_count taken from the same filter', nontrivial=False)
+                else:
+                    ctx.bad(rid, key, f.where(bb), 'a Bloom is built from a bit vector of unknown length (origins %s) and bits_count from %s' % (io[:2], bo[:2]))
+                continue
+            if _len_keys(f, ln) == _len_keys(f, bc):
+                ctx.ok(rid, key, f.where(bb), 'the bit vector length and bits_count are the same value')
+            else:
+                ctx.bad(rid, key, c.where(), 'the bit vector is built with a length from %s but bits_count is %s: the in-memory probe and the on-disk probe / clear() then use different moduli - keys added before are reported absent' % (sorted(_len_keys(f, ln))[:2], sorted(_len_keys(f, bc))[:2]))
+        else:
+            ogs = core.origins(f, o) if o is not None else []
+            if ogs and all(og.kind == 'agg' and og.data.get('variant') == 'None' for og in ogs):
+                continue
+            n += 1
+            key = 'len-eq-bits_count|store|%s' % root
+            c, ln = _bitvec_len_operand(f, o) if o is not None else (None, None)
+            lo = core.origins(f, ln, stop_fields=True) if ln is not None else []
+            if lo and all(x.kind == 'field' and x.data == (BLOOM, 'bits_count') for x in lo):
+                ctx.ok(rid, key, f.where(bb), 'new bit vector sized from self.bits_count')
+            else:
+                ctx.bad(rid, key, f.where(bb), 'a bit vector whose length does not come from self.bits_count (%s) is stored into Bloom.inner: add / contains use its length as modulus, the on-disk probe and clear() use bits_count' % (lo[:2] or 'not a fresh AtomicBitVec'))
+    for (f, bb, o, how) in core.field_sources(prog, BLOOM, 'bits_count'):
+        if how != 'construct':
+            n += 1
+            ctx.bad(rid, 'bits_count-store|%s' % prog.fns[f.id].root, f.where(bb), 'bits_count is modified outside a constructor')
+    if n < 4:
+        raise core.AnchorLost('Bloom constructions / inner stores: %d' % n)
+
+
 RULES = [
     Rule('C10.B1', 'every `definitely absent` answer lies in its owner and is controlled by that owner\'s justifying test; defaults are NeedAdditionalCheck', b1, 11),
     Rule('C10.B2', 'filter.add(key) dominates every insertion into the in-memory header map', b2, 2),
@@ -525,5 +596,6 @@ RULES = [
     Rule('C10.B7', 'every transition to OnDisk comes with bloom_offset = Some(..)', b7, 2),
     Rule('C10.B8', 'a transition back to InMemory re-initialises the filter (C04.T5 instances)', b8, 2),
     Rule('C10.B10', 'bloom filters are merged only when hasher count and bit length are equal', b10, 2),
+    Rule('C10.B11', 'Bloom.bits_count and the length of the in-memory bit vector are the same value at every construction and store', b11, 4),
     Rule('C10.B9', 'the range merge can extend both bounds in one call', b9, 1),
 ]
